@@ -283,3 +283,79 @@ func onlyTrivia(t []byte) bool {
 	}
 	return true
 }
+
+func init() {
+	subcmds["scan-record"] = scanRecord
+}
+
+type bodyRec struct {
+	S   int  `json:"s"`
+	L   int  `json:"l"`
+	OkS bool `json:"okS"`
+	OkE bool `json:"okE"`
+}
+
+// scan-record <repo> <out.ndjson> <step> <mutations> <seed> [corrupt]: real scanner runs on whole files, logged for Trace_Scan.tla.
+func scanRecord(args []string) *Result {
+	res := &Result{}
+	step, nmut, seed := atoi(args[2]), atoi(args[3]), atoi(args[4])
+	corrupt := len(args) > 5 && args[5] == "corrupt"
+	r := newRng(uint64(seed))
+	w := newNDJSON(args[1])
+	defer w.close()
+	emit := func(name string, b []byte) {
+		if len(b) > 6000 {
+			return
+		}
+		o := scanReal(b)
+		tape := make([]int, len(b))
+		for i, c := range b {
+			tape[i] = int(c)
+		}
+		bodies := []bodyRec{}
+		for _, l := range o.Out {
+			if l.T == "S" || l.T == "E" {
+				bodies = append(bodies, bodyRec{S: l.B, L: l.E - l.B + 1, OkS: l.T == "S", OkE: l.T == "E"})
+			}
+		}
+		out := o.Out
+		if out == nil {
+			out = []lex{}
+		}
+		if corrupt && res.Cases == 2 && len(out) > 0 {
+			out[len(out)-1].E++
+		}
+		w.write(map[string]any{"file": name, "tape": tape, "bodies": bodies, "res": o.Res, "ei": o.Ei, "out": out})
+		res.Cases++
+		res.count("real-" + o.Res)
+		if len(o.Out) > 3 {
+			res.Nontrivial++
+		}
+		if o.Res == "PANIC" {
+			res.mismatch("scan:panic", name+": the scanner panics: "+o.Msg, map[string]any{"kind": "scan-file", "file": name, "text": string(b)})
+		}
+		if len(res.Samples) < 2 && len(o.Out) > 10 {
+			res.sample(map[string]any{"file": name, "bytes": len(b), "lexemes": len(o.Out), "outcome": o.Res})
+		}
+	}
+	for i, f := range corpusFiles(args[0]) {
+		if i%step != 0 {
+			continue
+		}
+		b, err := os.ReadFile(f)
+		if err != nil {
+			continue
+		}
+		name := strings.TrimPrefix(f, args[0])
+		emit(name, b)
+		for m := 0; m < nmut; m++ {
+			t := string(b)
+			for k := 0; k <= r.intn(2); k++ {
+				t = mutateText(r, t)
+			}
+			emit(fmt.Sprintf("%s#mut%d", name, m), []byte(t))
+		}
+	}
+	res.Extra = map[string]any{"logged": w.n}
+	return res
+}
